@@ -901,12 +901,23 @@ func (c *client) establishRegion(reg hrpc.RegionInfo, addr string) {
 		return
 	}
 
+	// stop establishing when the region is dead or the client is closed
+	ctx, cancel := context.WithCancel(reg.Context())
+	defer cancel()
+	go func() {
+		select {
+		case <-c.done:
+			cancel()
+		case <-ctx.Done():
+		}
+	}()
+
 	var backoff time.Duration
 	var err error
 	for {
-		backoff, err = sleepAndIncreaseBackoff(reg.Context(), backoff)
+		backoff, err = sleepAndIncreaseBackoff(ctx, backoff)
 		if err != nil {
-			// region is dead
+			// region is dead or client is closed
 			reg.MarkAvailable()
 			return
 		}
@@ -914,7 +925,7 @@ func (c *client) establishRegion(reg hrpc.RegionInfo, addr string) {
 			// need to look up region and address of the regionserver
 			originalReg := reg
 			// lookup region forever until we get it or we learn that it doesn't exist
-			reg, addr, err = c.lookupRegion(originalReg.Context(),
+			reg, addr, err = c.lookupRegion(ctx,
 				fullyQualifiedTable(originalReg), originalReg.StartKey())
 
 			if err == TableNotFound {
@@ -935,7 +946,7 @@ func (c *client) establishRegion(reg hrpc.RegionInfo, addr string) {
 					"region", originalReg.String(), "err", err, "backoff", backoff)
 
 				return
-			} else if err == ErrClientClosed {
+			} else if err == ErrClientClosed || c.isClosed() {
 				// client has been closed
 				return
 			} else if err != nil {
@@ -981,12 +992,18 @@ func (c *client) establishRegion(reg hrpc.RegionInfo, addr string) {
 			})
 		}
 
+		if c.isClosed() {
+			// Close() might have missed this client
+			client.Close()
+			return
+		}
+
 		// connect to the region's regionserver.
 		// only the first caller to Dial gets to actually connect, other concurrent calls
 		// will block until connected or an error.
-		dialCtx, cancel := context.WithTimeout(reg.Context(), c.regionLookupTimeout)
+		dialCtx, dialCancel := context.WithTimeout(ctx, c.regionLookupTimeout)
 		err = client.Dial(dialCtx)
-		cancel()
+		dialCancel()
 
 		if err == nil {
 			if reg == c.adminRegionInfo {
@@ -1021,6 +1038,16 @@ func (c *client) establishRegion(reg hrpc.RegionInfo, addr string) {
 		// reset address because we weren't able to connect to it
 		// or regionserver says it's still offline, should look up again
 		addr = ""
+	}
+}
+
+// isClosed returns true if Close has been called.
+func (c *client) isClosed() bool {
+	select {
+	case <-c.done:
+		return true
+	default:
+		return false
 	}
 }
 
